@@ -2,20 +2,36 @@
 """C04 - every reward is credited exactly once to the cell(s) that produced the point."""
 from .. import session as S
 from .. import wraprec as W
+from .. import soosession as SS
+from .. import zoomsession as Z
+from .. import vroomsession as V
 from . import tbcommon as TC
 from . import wrapcommon as WC
+from . import soocommon as SC
+from . import seqcommon as QC
 
 
 def extra(chk):
     tier = chk.tier
     trs = S.pmap(W.run_wrap, WC.gpo_cfgs(tier, 1300000)[: (12 if tier == "quick" else 80)] + WC.poo_cfgs(tier, 1310000)[: (12 if tier == "quick" else 80)])
     chk.validate("Trace_Wrap.tla", "Trace_Wrap.cfg", trs, "wrap", own=["gpo.schedule", "gpo.score", "poo.route", "poo.score", "poo.times"], nontrivial=lambda t: t["learners"] >= 2)
+    own = ["credit.", "stats."]
+    k = 18 if tier == "quick" else 150
+    trs = [t for t in S.pmap(SS.run_soo, SC.random_cfgs(tier, 1320000)[:k]) if "skipped" not in t]
+    chk.validate("Trace_SOO.tla", "Trace_SOO.cfg", trs, "soo", own=own, nontrivial=SC.nontrivial)
+    trs = [t for t in S.pmap(SS.run_soo, QC.random_cfgs(tier, 1330000)[:k]) if "skipped" not in t]
+    chk.validate("Trace_Seq.tla", "Trace_Seq.cfg", trs, "seq", own=own, nontrivial=lambda t: len(t["ev"]) > 20)
+    from . import c11, c13
+    trs = S.pmap(Z.run_zoom, c11.cfgs(tier)[: (12 if tier == "quick" else 100)])
+    chk.validate("Trace_Zoom.tla", "Trace_Zoom.cfg", trs, "zoom", own=["zoom.stats", "zoom.foreign-stats"], nontrivial=lambda t: t["arms"] >= 3)
+    trs = [t for t in S.pmap(V.run_vroom, c13.cfgs(tier)[: (10 if tier == "quick" else 80)]) if "skipped" not in t]
+    chk.validate("Trace_VROOM.tla", "Trace_VROOM.cfg", trs, "vroom", own=own + ["vroom.credit-not-a-path"], chunk=40, nontrivial=lambda t: len(t["ev"]) > 20)
 
 
 def run(tier):
     return TC.full_check(
         "C04", tier, own=["credit.", "stats."],
-        rule="MC: TreeBandit model with the history variable (evidence of every cell = fold of the history, counts sum to rounds); replay; TV: grid-mode sessions of T_HOO/HCT/VHCT with the all-differences recorder (after every round exactly the credited cells change by (+1, +r, +r^2)); POO/GPO/PCT/VPCT sessions observed through the recording learner class.  Non-trivial = accepted trace with >= 1 expansion and >= 2 distinct pulled cells (wrappers: >= 2 learners).",
-        explanation="Credit set: path to the pulled cell (T-HOO), the pulled cell (HCT/VHCT), the serving learner or the validation score (POO/GPO).  Reward-list length = count, logged mean / variance equal the exact statistics of the credited rewards, no other cell's evidence changes, counts total the completed rounds.",
+        rule="MC: TreeBandit model with the history variable (evidence of every cell = fold of the history, counts sum to rounds); replay; TV: grid-mode sessions of T_HOO/HCT/VHCT with the all-differences recorder (after every round exactly the credited cells change by (+1, +r, +r^2)); POO/GPO/PCT/VPCT sessions observed through the recording learner class; SOO/StoSOO/DOO, SequOOL, Zooming and VROOM sessions validated by their trace specifications (credit clauses).  Non-trivial = accepted trace with >= 1 expansion and >= 2 distinct pulled cells (wrappers: >= 2 learners).",
+        explanation="Credit set: path to the pulled cell (T-HOO), the pulled cell (HCT/VHCT), the serving learner or the validation score (POO/GPO), the cell handed out (SOO/DOO/StoSOO/SequOOL), the played arm (Zooming), the drawn cell and the descendants on the sampling path (VROOM).  Reward-list length = count, logged mean / variance equal the exact statistics of the credited rewards, no other cell's evidence changes, counts total the completed rounds.",
         extra=extra,
     )
